@@ -161,7 +161,7 @@ fn enumerate_c01(cli: &Cli, r: &Report, prop: &str) {
 }
 
 fn enumerate_c02(cli: &Cli, r: &Report) {
-    let nscripts = ALLOC_SCRIPTS.len();
+    let nscripts = ALLOC_SCRIPTS.len().min(6); // the full product runs over the first six scripts
     let mut index = 0u64;
     for (entry, ishape, oshape) in path_classes() {
         for s in [1u32, 2] {
@@ -230,6 +230,23 @@ fn enumerate_c02(cli: &Cli, r: &Report) {
                     if cli.mine(index) {
                         check(r, "C02", &base, index);
                     }
+                }
+            }
+        }
+    }
+    // Samples whose timed section only resizes or only frees (no `alloc` in it at all).
+    for (entry, ishape, oshape) in shapes() {
+        for script in [3usize, 6] {
+            for threads in [1usize, 2] {
+                let mut base = LoopCase::basic(entry, ishape, oshape);
+                base.alloc[SITE_CALL] = script;
+                base.alloc[SITE_GEN] = 1;
+                base.threads = threads;
+                base.sample_count = Some(2);
+                base.sample_size = Some(2);
+                index += 1;
+                if cli.mine(index) {
+                    check(r, "C02", &base, index);
                 }
             }
         }
